@@ -34,7 +34,7 @@ def in_sphere(ctx):
     finder = GeometricFinder(_FakeMesh(vs))
     p = ctx.vec("p")
     if rmode == "given-radius":
-        r = ctx.real("r", lo=0.001, hi=10)
+        r = ctx.real("r", lo=1e-9, hi=10)
         found = finder.find_in_sphere(p, r)
         r2 = r * r
     else:
@@ -179,14 +179,21 @@ def reorienter(ctx):
     perm = all_numberings()[ctx.case]
     base = np.array(A.COORDS, dtype=float) * np.array([rng.uniform(0.8, 2), rng.uniform(0.8, 2), rng.uniform(0.8, 2)])
     base += np.array([[rng.uniform(-0.12, 0.12) for _ in range(3)] for _ in range(8)])
+    if rng.random() < 0.4:
+        # a small block far from the origin (millimetres at a kilometre): the same block, the same answer
+        base = base * rng.choice([0.005, 0.05]) + np.array([rng.choice([-1, 1]) * rng.uniform(300, 1500) for _ in range(3)])
+    size = float(np.linalg.norm(base[6] - base[0]))
     centre = base.mean(axis=0)
     pts = base[perm]
     op = cb.Loft(cb.Face(pts[:4]), cb.Face(pts[4:]))
-    observer = centre + np.array([rng.uniform(-0.3, 0.3), -rng.uniform(20, 40), rng.uniform(-0.3, 0.3)])
-    ceiling = centre + np.array([rng.uniform(-0.3, 0.3), rng.uniform(-0.3, 0.3), rng.uniform(20, 40)])
-    ViewpointReorienter(observer, ceiling).reorient(op)
+    observer = centre + np.array([rng.uniform(-0.3, 0.3), -rng.uniform(20, 40), rng.uniform(-0.3, 0.3)]) * size / 2
+    ceiling = centre + np.array([rng.uniform(-0.3, 0.3), rng.uniform(-0.3, 0.3), rng.uniform(20, 40)]) * size / 2
+    _, exc = ctx.call(ViewpointReorienter(observer, ceiling).reorient, op)
+    ctx.prove("a-convex-block-can-be-re-oriented", exc is None, exc=repr(exc))
+    if exc is not None:
+        return
     new = np.asarray(op.point_array, dtype=float)
-    ctx.prove("same-eight-points", sorted(map(tuple, np.round(new, 9))) == sorted(map(tuple, np.round(base, 9))))
+    ctx.prove("same-eight-points", all(any(np.allclose(p, q, atol=1e-9 * (1 + np.abs(q).max())) for q in base) for p in new) and len(new) == 8)
     fc = lambda side: new[sorted(hexa.FACE_SPEC[side])].mean(axis=0)
     c2 = new.mean(axis=0)
     ctx.prove("front-side-faces-the-observer", np.dot(fc("front") - c2, observer - c2) > 0 and
@@ -197,4 +204,4 @@ def reorienter(ctx):
     # canonical: independent of the initial numbering -> equals the result for the identity numbering
     op0 = cb.Loft(cb.Face(base[:4]), cb.Face(base[4:]))
     ViewpointReorienter(observer, ceiling).reorient(op0)
-    ctx.prove("independent-of-the-initial-numbering", bool(np.allclose(np.asarray(op0.point_array, dtype=float), new, atol=1e-9)))
+    ctx.prove("independent-of-the-initial-numbering", bool(np.allclose(np.asarray(op0.point_array, dtype=float), new, atol=1e-9 * (1 + np.abs(new).max()))))
